@@ -53,14 +53,22 @@ func maxSlope(stops []Stop16) float64 {
 // evaluated at offset o known to within +-delta: the spread function is applied
 // with an interval, so a discontinuity inside the interval admits either side.
 func GradientCandidates(stops []Stop16, spread uint8, o, delta float64) []Candidate {
+	return GradientCandidates2(stops, spread, o, delta, delta)
+}
+
+// GradientCandidates2 separates the two uses of the rounding bound: disc is
+// the half-width of the interval used to decide on which side of a
+// discontinuity the offset lies (0 when the offset is known exactly), delta
+// bounds the rounding of the offset for the colour tolerance.
+func GradientCandidates2(stops []Stop16, spread uint8, o, disc, delta float64) []Candidate {
 	slope := maxSlope(stops)
-	tol := 1 + 2*slope*delta
+	tol := 1 + 1e-6 + 2*slope*delta
 	at := func(t float64, why string) Candidate {
 		r, g, b, a := colourAt(stops, t)
 		return Candidate{r, g, b, a, tol, why}
 	}
 	transparent := Candidate{0, 0, 0, 0, 0, "transparent (spread none, outside [0,1])"}
-	lo, hi := o-delta, o+delta
+	lo, hi := o-disc, o+disc
 	var out []Candidate
 	switch spread {
 	case 0: // none
